@@ -134,3 +134,28 @@ package dns
 //@   at call builtin:append#2 assert a1[0].Not == f.Not
 //@   at call builtin:append#2 assert 0 <= upstreamId && upstreamId < 256 ==> a1[0].Upstream == upstreamId
 //@   ensures err == nil ==> calls("builtin:append") == 2
+
+// C04 (which program is compiled): the request and response rule lists of the configuration go through the
+// geodata, merge-and-sort and de-duplication steps, in that order, and the programs that come out are the
+// ones the matchers are built from.
+//@ func New
+//@   anchorsonly
+//@   nonilcheck
+//@   dyncalls noeffect
+//@   modifies *
+//@   at call NewNormalizedRequestRoutingProgram#1 assert a0 == dns.Routing.Request.Rules && a1 == dns.Routing.Request.Fallback
+//@   at call NewNormalizedRequestRoutingProgram#1 assert len(a2) == 3 && typeis(a2[0], "*routing.DatReaderOptimizer") && typeis(a2[1], "*routing.MergeAndSortRulesOptimizer") && typeis(a2[2], "*routing.DeduplicateParamsOptimizer")
+//@   at call NewNormalizedProgram#1 assert a0 == dns.Routing.Response.Rules && a1 == dns.Routing.Response.Fallback
+//@   at call NewNormalizedProgram#1 assert len(a2) == 3 && typeis(a2[0], "*routing.DatReaderOptimizer") && typeis(a2[1], "*routing.MergeAndSortRulesOptimizer") && typeis(a2[2], "*routing.DeduplicateParamsOptimizer")
+//@   at call NewRequestMatcherBuilderFromProgram#1 assert a1 == requestProgram && a2 == upstreamName2Id
+//@   at call NewResponseMatcherBuilderFromProgram#1 assert a1 == responseProgram && a2 == upstreamName2Id
+
+//@ func NewNormalizedRequestRoutingProgram
+//@   anchorsonly
+//@   nonilcheck
+//@   dyncalls noeffect
+//@   modifies *
+//@   at call ApplyRulesOptimizers#1 assert a0 == rules && a1 == optimizers && len(optimizers) > 0
+//@   at call DeepCloneRules#1 assert a0 == rules && len(optimizers) == 0
+//@   at call SplitRequestRules#1 assert a0 == normalizedRules && calls("ApplyRulesOptimizers") + calls("DeepCloneRules") == 1
+//@   at return 3 assert result0.Rules == dnsRules && result0.Fallback == fallback && result1 == nil
